@@ -107,6 +107,13 @@ pub struct Config {
     /// run the (ctx,last-id,limit) read battery after every step when it is read-only
     pub auto_battery: bool,
     pub check_follower: bool,
+    /// after the last step also explore the suffix [ReadBattery if something is expired ; GcRun]
+    /// (the state used for merging / expansion is the one before this look-ahead)
+    pub settle_lookahead: bool,
+    /// extra leaf check (C20: export/import)
+    pub extra: Option<fn(&mut Exec) -> Vec<Finding>>,
+    /// operations applied to every fresh store before the history (not counted as depth)
+    pub preseed: Vec<Op>,
 }
 
 impl Default for Config {
@@ -115,6 +122,9 @@ impl Default for Config {
             topics: vec!["a".into(), "ab".into()],
             auto_battery: true,
             check_follower: true,
+            settle_lookahead: false,
+            extra: None,
+            preseed: vec![],
         }
     }
 }
@@ -375,7 +385,13 @@ impl Exec {
 
     // ---- operations ----------------------------------------------------------------------
 
-    pub fn apply(&mut self, op: &Op) {
+    /// Apply one operation. `check` = evaluate the oracles after it (the replayed prefix of a
+    /// history was already checked when it was a leaf itself, so only the last step needs it).
+    pub fn apply(&mut self, op: &Op, check: bool) {
+        if check && self.cfg.check_follower {
+            // flush what earlier (unchecked) steps broadcast
+            let _ = self.drain_follower();
+        }
         let before_dump = self.store().verif_dump();
         let mut expect_broadcast: Option<Vec<Scru128Id>> = Some(vec![]);
         match op {
@@ -571,7 +587,7 @@ impl Exec {
         self.mark_evictable();
         self.promote_collected();
 
-        if self.cfg.check_follower {
+        if self.cfg.check_follower && check {
             let got = self.drain_follower();
             if let Some(exp) = expect_broadcast {
                 let got_ids: Vec<_> = got.iter().map(|f| f.id).collect();
@@ -594,7 +610,9 @@ impl Exec {
                 }
             }
         }
-        self.observe();
+        if check {
+            self.observe();
+        }
     }
 
     fn older_id(&self) -> Scru128Id {
@@ -1178,12 +1196,36 @@ pub struct RunResult {
 
 pub fn run_history(cfg: Config, history: &[Op], menu_fn: &dyn Fn(&Exec) -> Vec<Op>) -> RunResult {
     let mut e = Exec::new(cfg);
-    e.observe();
-    for op in history {
-        e.apply(op);
+    let pre = e.cfg.preseed.clone();
+    for op in &pre {
+        e.apply(op, false);
+    }
+    if history.is_empty() {
+        e.observe();
+    }
+    for (i, op) in history.iter().enumerate() {
+        e.apply(op, i + 1 == history.len());
     }
     let canon = e.canon();
     let menu = menu_fn(&e);
+    if let Some(extra) = e.cfg.extra {
+        if e.findings.is_empty() {
+            let fs = extra(&mut e);
+            e.findings.extend(fs);
+        }
+    }
+    if e.cfg.settle_lookahead && e.findings.is_empty() {
+        let n0 = e.findings.len();
+        if e.live.values().any(|m| e.expired(&m.frame) && !m.covered) {
+            e.apply(&Op::ReadBattery, true);
+        }
+        if !e.store().verif_hooks().gc_pending().is_empty() {
+            e.apply(&Op::GcRun, true);
+        }
+        for f in e.findings.iter_mut().skip(n0) {
+            f.msg = format!("(after the look-ahead suffix [ReadBattery?; GcRun]) {}", f.msg);
+        }
+    }
     let res = RunResult {
         findings: std::mem::take(&mut e.findings),
         canon,
